@@ -78,7 +78,13 @@ pub mod state_handle {
         pub(super) fn flush(&self) -> std::io::Result<()> { unimplemented!() }
         #[verifier::external_body]
         pub(super) fn shutdown(&self) { unimplemented!() }
+        #[verifier::external_body]
+        pub(super) fn existing_log_files(&self, selector: &LogfileSelector) -> (r: Result<Vec<PathBuf>, FlexiLoggerError>)
+            ensures r == sh_elf_result(selector)
+        { unimplemented!() }
     }
+    /// oracle: the state handle's listing for a selector (unit `handle`)
+    pub uninterp spec fn sh_elf_result(selector: &LogfileSelector) -> Result<Vec<PathBuf>, FlexiLoggerError>;
 }
 pub mod file_log_writer {
     use super::*;
@@ -86,6 +92,7 @@ pub mod file_log_writer {
     use super::shims::*;
     use super::state_handle::*;
     use log::Record;
+    use std::path::PathBuf;
     broadcast use group_level_axioms;
 
     //@ item src/writers/file_log_writer.rs struct FileLogWriter
@@ -100,6 +107,10 @@ pub mod file_log_writer {
     //@   ens[FileLogWriter::new.post.ceiling] r.ceiling() == max_log_level
     //@   ens[FileLogWriter::new.post.made_from] made(r.handle()).0 == state && made(r.handle()).1 == format_function
     //@   ens[FileLogWriter::new.post.mode] made(r.handle()).2 == !(effective(state.cfg.write_mode) is Direct || effective(state.cfg.write_mode) is BufferAndFlushWith || effective(state.cfg.write_mode) is BufferDontFlushWith)
+    //@ fn src/writers/file_log_writer.rs impl FileLogWriter / fn existing_log_files
+    //@   ret r
+    //@   props C16
+    //@   ens[FileLogWriter::existing_log_files.post] r == sh_elf_result(selector)
     //@ fn src/writers/file_log_writer.rs impl FileLogWriter / fn plain_write
     //@   ret r
     //@   props C15
